@@ -226,12 +226,14 @@ Definition kb_add (s : store) (k : nat) (b : binding) : store :=
 (* add( *keys, filter=f2, eager=e2, is_global=g2)(func) where func is a Binding object made by
    key_binding(filter=f1, eager=e1, is_global=g1, save_before=.., record_in_macro=..)(handler):
      Binding(keys, func.handler, filter=func.filter & to_filter(filter), eager=to_filter(eager) | func.eager,
-             is_global=to_filter(is_global) | func.is_global, save_before=func.save_before,
+             is_global=to_filter(is_global) | func.is_global,
+             save_before=(func.save_before if save_before is _default_save_before else save_before),
              record_in_macro=func.record_in_macro)
    [pre] carries what the Binding object holds (its keys are unused), [arg] what add() is given. *)
 Definition compose_binding (pre arg : binding) : binding :=
   mkbinding (bkeys arg) (FAnd (bfilter pre) (bfilter arg)) (FOr (beager arg) (beager pre))
-            (bglobal arg || bglobal pre) (bhandler pre) (bacts pre) (bmacro pre) (bsave pre).
+            (bglobal arg || bglobal pre) (bhandler pre) (bacts pre) (bmacro pre)
+            (if bsave arg =? 0 then bsave pre else bsave arg).
 
 Definition kb_addb (s : store) (k : nat) (pre arg : binding) : store :=
   match cls (bfilter arg) with       (* the Never test looks at add()'s own filter argument *)
